@@ -27,7 +27,7 @@ def adapt(run):
             cur["drop"] = ev["tag"]
             cur["dropFired"] = bool(ev["fired"])
         elif k == "deliver":
-            out.append({"ev": "CbEmit", "e": ev["x"][0] if len(ev["x"]) == 1 else -1})
+            out.append({"ev": "CbEmit", "e": ev["x"][0] if len(ev["x"]) == 1 else -1, "md": ev["md"]})
         elif k == "cons_done" and not sync:
             out.append({"ev": "ConsumerDone"})
         elif k == "release" and ev["site"].endswith(".cb"):
@@ -48,6 +48,8 @@ def attribute(run, trace, idx):
         return "C14", "end"
     ev = trace[idx - 1]
     k = ev["ev"]
+    if k == "CbEmit" and ev.get("md") != [ev.get("e")]:
+        return "C10", "element %s was delivered with metadata %s instead of its own" % (ev.get("e"), ev.get("md"))
     if k == "CbEmit":
         return "C14", "delivery of %s is not allowed here (duplicate, stale or out of order)" % ev.get("e")
     if k == "End":
